@@ -51,7 +51,8 @@ PW = dict(overlays=['contracts/page_writer.ovl'], harness='harness/C09/page_writ
           trusted=['harness/C09/page_writer.c: assumed contracts of carquet_buffer_* (append may fail; sizes < 2^40), thrift_write_* (field log), '
                    'codec compress / compress_bound (reported size <= capacity), carquet_crc32 (arbitrary value)'])
 JOBS += [
-    dict(name='c09_compress_data', prop='C09', entry='h_c09_compress_data', functions=['compress_data'], **PW),
+    dict(name='c09_compress_data', props=['C09', 'C19'], entry='h_c09_compress_data',   # C19: a failed scratch allocation is reported, never papered over
+          functions=['compress_data'], **PW),
     dict(name='c14_page_writer_finalize', props=['C14', 'C19'], entry='h_c14_finalize', functions=['carquet_page_writer_finalize', 'compress_data'], **PW),
 ]
 
